@@ -104,8 +104,13 @@ func runMutant(verif, repo string, m mutantMeta, want map[string]bool, verbose b
 	for _, p := range m.Props {
 		run := generate(w, p)
 		genErrs += len(run.errs)
-		dischargeAll(run.obls, runtime.NumCPU(), 6*time.Second, 12*time.Second, false)
-		secondChance(run.obls, 6*time.Second, 12*time.Second)
+		if m.Kind == "refactor" {
+			dischargeAll(run.obls, runtime.NumCPU(), 6*time.Second, 12*time.Second, false)
+			secondChance(run.obls, 6*time.Second, 12*time.Second)
+		} else {
+			// for a must-fail mutant an undecided obligation already counts as detection
+			dischargeAll(run.obls, runtime.NumCPU(), 4*time.Second, 4*time.Second, false)
+		}
 		nObl += len(run.obls)
 		for _, o := range run.obls {
 			if !o.ok() && kf.open(p, o.Name) == nil {
